@@ -546,8 +546,9 @@ PROPS["C38"] = {
              "call 0..W, each under several scheduler seeds/biases; at quiescence: no call or send is still pending, calls whose "
              "reply was completely received succeed and all others fail, each stream yields exactly the completely received "
              "messages that match it and then ends, a later call and a later subscription fail (do not hang), no panic; distinct = "
-             "distinct (fault, schedule fingerprint)"),
-    "gates": {"quick": {"evaluations": 1500, "distinct": 1200, "class:mid-fixed-header": 300, "class:mid-header-fields": 800, "class:mid-body": 500, "class:between-messages": 20, "class:after-last-message": 2, "class:write-call": 150, "fault_positions_total": 1000},
+             "distinct (fault, schedule fingerprint) plus class backlog-at-failure: 1400 (40000 thorough) cases in which a stream of capacity 1/2/3/5/8 is not polled until after an EOF or reset and holds capacity-1 / capacity / capacity+1 received messages: all of them must come out in order before the error or the end"),
+    "gates": {"quick": {"evaluations": 1500, "distinct": 1200, "class:mid-fixed-header": 300, "class:mid-header-fields": 800, "class:mid-body": 500, "class:between-messages": 20, "class:after-last-message": 2, "class:write-call": 150, "fault_positions_total": 1000,
+                        "class:backlog-at-failure": 1300, "class:backlog-exactly-full": 500},
               "thorough": {"evaluations": 10000, "distinct": 8000}},
     "exhaustive_note": "every inbound byte offset (classes.inbound_bytes + 1 positions x {EOF, error}) and every write call of the scripted session (classes.fault_positions_total)",
     "assumptions": ["'promptly' is judged at quiescence of the deterministic scheduler (a task that is still pending when nothing can make progress is a hang); no wall clock",
